@@ -5,7 +5,7 @@ CONSTANTS
  Gg = 2
  Vars = {"two"}
  Ns = {2}
- MsgVecs <- MV23
+ MsgVecs <- MV23s
  CCoins <- C6
  SCoins <- C2b
  Tamper = FALSE
